@@ -14,7 +14,7 @@ func init() {
 	register(&Check{
 		ID:  "C18",
 		Run: runC18,
-		Explanation: "Decides bookkeeping clauses of the writer whose breakage makes cross-reference offsets, /Length or the free list wrong: (R1 COUNT) in the object writers (writeObjectHeader, writeObjectTrailer, writeObject, writeStream, writeStreamObject, writeStreamDictObject, writeCommentLine/writeHeader) the byte count returned by every primitive write to the WriteContext (WriteString, Write, fmt.Fprintf(w,…)) flows — through +, conversions, phis and returned counts summed by the caller — into the function's returned count or into the store `Offset += …`; where the count is discarded, the same string's len() is part of the caller's offset sum (writeStreamObject/pdfString); (R2 snapshot) in writeObject and writeStreamDictObject SetWriteOffset(objNr) is executed before the first primitive write and the Offset update comes after the last one; (R3 length pairing) wherever a freshly computed length is stored into StreamDict.StreamLength (address of a local) every path to the function's return also updates the dictionary's /Length entry (Update/Insert/map store with key \"Length\"), so the serialised /Length and the byte count cannot diverge; writeStream compares the bytes written with *sd.StreamLength; (R4 free list) in EnsureValidFreeList every success return after validateFreeList re-links the last valid entry (`*lastValid.Offset = nextFree`, or lastValid == nil) — an early return placed before the re-link leaves a stale link to an in-use object; pdfcpu.WriteContext writes header → objects → xref → trailer in that order on every success path. NOT decided: numeric exactness of /Size, /W, /Index, EOL variants, object-stream index arithmetic.",
+		Explanation: "Decides bookkeeping clauses of the writer whose breakage makes cross-reference offsets, /Length or the free list wrong: (R1 COUNT) in the object writers (writeObjectHeader, writeObjectTrailer, writeObject, writeStream, writeStreamObject, writeStreamDictObject, writeCommentLine/writeHeader) the byte count returned by every primitive write to the WriteContext (WriteString, Write, fmt.Fprintf(w,…)) flows — through +, conversions, phis and returned counts summed by the caller — into the function's returned count or into the store `Offset += …`; where the count is discarded, the same string's len() is part of the caller's offset sum (writeStreamObject/pdfString); WriteContext.WriteEol returns no count: a counting writer that uses it must add len(w.Eol) (1 or 2 bytes) to its count; (R2 snapshot) in writeObject and writeStreamDictObject SetWriteOffset(objNr) is executed before the first primitive write and the Offset update comes after the last one; (R3 length pairing) wherever a freshly computed length is stored into StreamDict.StreamLength (address of a local) every path to the function's return also updates the dictionary's /Length entry (Update/Insert/map store with key \"Length\"), so the serialised /Length and the byte count cannot diverge; writeStream compares the bytes written with *sd.StreamLength; (R4 free list) in EnsureValidFreeList every success return after validateFreeList re-links the last valid entry (`*lastValid.Offset = nextFree`, or lastValid == nil) — an early return placed before the re-link leaves a stale link to an in-use object; pdfcpu.WriteContext writes header → objects → xref → trailer in that order on every success path. NOT decided: numeric exactness of /Size, /W, /Index, EOL variants, object-stream index arithmetic.",
 		Rules: []string{
 			"C18.R1 COUNT: written byte counts reach the offset bookkeeping",
 			"C18.R2 MPT: offset snapshot before the first write of an object",
@@ -121,6 +121,29 @@ func runC18(c *Ctx) {
 		eachInstr(fn, func(_ *ssa.BasicBlock, _ int, i ssa.Instruction) {
 			call, ok := i.(*ssa.Call)
 			if !ok {
+				return
+			}
+			// a write helper that returns no byte count (WriteContext.WriteEol): its bytes must be added as len(w.Eol)
+			if _, ref := callRef(call); ref == "pkg/pdfcpu/model.WriteContext.WriteEol" {
+				k++
+				construct := fmt.Sprintf("WriteEol#%d count", k)
+				added := false
+				eachInstr(fn, func(_ *ssa.BasicBlock, _ int, j ssa.Instruction) {
+					lc, ok := j.(*ssa.Call)
+					if !ok {
+						return
+					}
+					if b, ok := lc.Call.Value.(*ssa.Builtin); ok && b.Name() == "len" && strings.HasSuffix(fieldPath(lc.Call.Args[0]), "Eol") {
+						if countReaches(lc, 0, map[ssa.Value]bool{}) {
+							added = true
+						}
+					}
+				})
+				if added {
+					r.OK("C18.R1", fid, construct, p.Pos(call.Pos()), "WriteEol returns no count; len(w.Eol) is added to the function's count", true)
+				} else {
+					r.Bad("C18.R1", fid, construct, p.Pos(call.Pos()), "WriteEol writes len(w.Eol) bytes (1 or 2) but returns no count, and this counting writer does not add len(w.Eol): with CRLF line ends every later xref offset drifts")
+				}
 				return
 			}
 			isPrim := primitiveWrite(call)
